@@ -47,6 +47,7 @@ package extensions
 
 //@ func E2.MulByElement
 //@ layer ring babybear.Element
+//@ option interior
 //@ ensures[value] vec(z) == vscale(old(*y), old(vec(x)))
 //@ ensures[result] result == z
 //@ modifies z
@@ -126,6 +127,7 @@ package extensions
 
 //@ func E4.MulByE2
 //@ layer ring E2
+//@ option interior
 //@ ensures[value] vec(z) == vscale(old(*y), old(vec(x)))
 //@ ensures[result] result == z
 //@ modifies z
